@@ -274,6 +274,76 @@ def _yaml_unsafe(v) -> bool:
     return False
 
 
+ERROR_KINDS = ["missing", "self-loop", "2-cycle", "3-cycle", "missing-parent-1", "missing-parent-2", "missing-parent-3"]
+ROUTES = ["flag", "env", "ancestor-of-flag", "ancestor-of-env", "ancestor-of-default"]
+
+
+def gen_error_route(rng, kind: str, route: str, e2e: bool = False) -> Case:
+    """A broken profile `bad` (missing / cyclic / with a missing ancestor) reached by one selection route, in a file whose
+    `default` profile is perfectly fine: the run must end in a ConfigError, never quietly fall back to `default`."""
+    used = set()
+    profiles = {}
+    if kind == "missing":
+        pass
+    elif kind == "self-loop":
+        profiles["bad"] = {"extends": "bad"}
+    elif kind == "2-cycle":
+        profiles["bad"] = {"extends": "b2"}
+        profiles["b2"] = {"extends": "bad"}
+    elif kind == "3-cycle":
+        profiles["bad"] = {"extends": "b2"}
+        profiles["b2"] = {"extends": "b3"}
+        profiles["b3"] = {"extends": "bad"}
+    else:
+        k = int(kind[-1])
+        chain = ["bad"] + [f"c{i}" for i in range(1, k)]
+        for a, b in zip(chain, chain[1:] + ["ghost"]):
+            profiles[a] = {"extends": b}
+    # give the broken profiles some content and make `default` (or the selecting profile) a tempting fallback
+    for name in list(profiles):
+        for s2 in rng.sample(SETTINGS, 2):
+            set_path(profiles[name], PATHS[s2][0], fresh_value(rng, s2, used, e2e))
+    good = {}
+    for s2 in SETTINGS:
+        set_path(good, PATHS[s2][0], fresh_value(rng, s2, used, e2e))
+    env = {}
+    for s2 in rng.sample(SETTINGS, 2):
+        if not (e2e and s2 == "cport"):
+            set_path(env, PATHS[s2][0], fresh_value(rng, s2, used, e2e))
+    profile_flag, env_name = "-", "-"
+    if route == "flag":
+        profiles["default"] = good
+        profile_flag = "bad"
+        env_name = rng.choice(["-", "ci"])
+    elif route == "env":
+        profiles["default"] = good
+        env["profile"] = "bad"
+        env_name = "ci"
+    elif route == "ancestor-of-flag":
+        profiles["default"] = good
+        profiles["sel"] = {"extends": "bad", "node": {"default_ttl_seconds": 4242}}
+        profile_flag = "sel"
+        env_name = rng.choice(["-", "ci"])
+    elif route == "ancestor-of-env":
+        profiles["default"] = good
+        profiles["sel"] = {"extends": "bad", "node": {"default_ttl_seconds": 4242}}
+        env["profile"] = "sel"
+        env_name = "ci"
+    else:
+        good["extends"] = "bad"
+        profiles["default"] = good
+        env_name = rng.choice(["-", "ci"])
+    keys = list(profiles)
+    rng.shuffle(keys)
+    doc = {"profiles": {k2: profiles[k2] for k2 in keys}, "environments": {"ci": env}}
+    flags = {}
+    if rng.random() < 0.3:
+        flags["tok"] = fresh_value(rng, "tok", used, e2e)
+    fmt = rng.choice(["json", "yaml"])
+    op = "cfgx" if e2e else "cfg"
+    return Case(ops=[f"{op} {fmt} {profile_flag} {env_name} {flag_text(flags)} {ser(doc)}"], tag=f"error-route/{kind}/{route}" + ("/e2e" if e2e else ""))
+
+
 SHAPES = ["plain"] * 10 + ["cycle", "cycle", "missing-parent", "missing-parent", "missing-selected", "extends-type", "profile-not-map",
                            "missing-env", "invalid", "invalid", "shadow", "alias-mixed"]
 
@@ -285,6 +355,13 @@ def generate(ctx, budget):
     for i in range(budget):
         c = gen_case(rng, rng.choice(SHAPES))
         cases.append(c)
+    # every way a profile can be broken x every route by which it can be reached (each combination in every run)
+    for rep in range(2 if ctx.tier == "quick" else 12):
+        for kind in ERROR_KINDS:
+            for route in ROUTES:
+                cases.append(gen_error_route(rng, kind, route))
+    for _ in range(4 if ctx.tier == "quick" else 30):
+        cases.append(gen_error_route(rng, rng.choice(ERROR_KINDS), rng.choice(ROUTES), e2e=True))
     n_e2e = 10 if ctx.tier == "quick" else 120
     for i in range(n_e2e):
         cases.append(gen_case(rng, rng.choice(["plain", "plain", "plain", "cycle", "missing-parent"]), e2e=True))
@@ -321,7 +398,9 @@ def spec() -> Spec:
              "(flags, environment direct keys, environment overrides map, selected profile, ancestors), extends chains of depth 0-4, "
              "profile selected by default / --profile p0 / an explicit --profile default / the environment, with the environment naming a "
              "decoy profile while a --profile flag is given; flags whose value equals the built-in default (also 0 and false); unrelated "
-             "(also cyclic) profiles as noise; error shapes: cycle "
+             "(also cyclic) profiles as noise; the cross product {missing, self-loop, 2-cycle, 3-cycle, missing parent at depth 1-3} x "
+             "{--profile, environment's profile key, ancestor of the flag's / the environment's / the default profile} next to a "
+             "healthy `default` profile; further error shapes: cycle "
              "back to any chain member, missing parent, missing selected profile, non-text extends, non-mapping profile, unknown "
              "environment; invalid values (type, range) in winning and in hidden layers; scalar-shadowed sections; mixed spellings "
              "(known finding); plus an end-to-end sample through the real `eph ... start`. distinct = sha256 of the op; non-trivial = "
